@@ -18,6 +18,7 @@ import Rsa.Lemmas.C20Meadows
 import Rsa.Lemmas.C20Hrf
 import Rsa.Lemmas.C20Syntax
 import Rsa.Lemmas.C20Session
+import Rsa.Lemmas.C20MeadowsJson
 
 set_option linter.unusedSectionVars false
 set_option linter.unusedVariables false
@@ -1445,5 +1446,94 @@ example :
        .file "derivatives/A/sub-01/func/sub-01_bold.json".toList (some 2)] := by decide
 
 end session
+
+/-! ## 9. (round 5) Meadows `.json`: every loaded task carries its own file values by label -/
+
+section meadowsJson
+variable {α : Type}
+
+/-- **A loaded task's entry for labels (a, b) is the file's entry for (a, b).**
+    About the loader as the source spells it (`Src.compsJson`: the test that lets a *later*
+    multi-arrangement task pass is regenerated from `io/meadows.py`, leaf `mlJsonSame`).  Each
+    task's `rdm` vector is laid out in that task's **own** stimulus order, while the result keeps
+    only the first task's labels.  For every file (any number of tasks, any task kinds in between,
+    later tasks with the same stimuli in another order, another set, a superset …), sorted or
+    not: the result has one task name, task index and participant per RDM; RDM `k` belongs to the
+    multi-arrangement task at file position `task_index[k]`, carries that task's name, and its
+    stored entry for the label pair at positions `i < j` equals `fileVal task conds[i] conds[j]`
+    — the value the **file** gives, in that task, to the two stimuli with these labels, looked up
+    at the positions they have in the task's own list.  Consequently (last conjunct) a task
+    whose stimulus list is not exactly the kept one is never loaded.
+    Hypothesis: the labels (stems of the first task's stimulus names) are pairwise distinct —
+    otherwise "the entry for labels (a, b)" is not defined. -/
+theorem meadows_json_task_values [Zero α] (info : MInfo) (ts : List (JTask α)) (c : Comps α)
+    (sort : Bool) (hc : Src.compsJson info (some ts) = .ok c)
+    (hnd : (c.stimuli.map stem).Nodup) :
+    ∃ tn ti, (assemble info c sort).task = some tn ∧ (assemble info c sort).taskIndex = some ti ∧
+      tn.length = (assemble info c sort).dissim.length ∧
+      ti.length = (assemble info c sort).dissim.length ∧
+      (assemble info c sort).participant.length = (assemble info c sort).dissim.length ∧
+      (∀ (k : Nat) (row : List α), (assemble info c sort).dissim[k]? = some row →
+        ∃ (t : Nat) (task : JTask α), ti[k]? = some t ∧ ts[t]? = some task ∧
+          task.taskType = some sMultiarrange ∧ tn[k]? = some task.name ∧
+          ∀ (i j : Nat) (hij : i < j) (hj : j < (assemble info c sort).conds.length),
+            row.getD (triIdx (assemble info c sort).conds.length i j) 0 =
+              fileVal task ((assemble info c sort).conds[i]) ((assemble info c sort).conds[j])) ∧
+      (∀ (t : Nat) (task : JTask α), ts[t]? = some task → task.stimuli ≠ c.stimuli → t ∉ ti) := by
+  rw [Src.compsJson_eq] at hc
+  obtain ⟨tn, ti, h1, h2, h3, hrows⟩ := compsJson_rows info ts c hc
+  have hdl : (assemble info c sort).dissim.length = c.utvs.length := by
+    cases sort <;> simp [assemble]
+  have hmeta := (meadows_sort_labelled info c).2.2.2.2.2.2.2 sort
+  refine ⟨tn, ti, by rw [hmeta.2.1, h1], by rw [hmeta.2.2.1, h2], by rw [hdl]; exact hrows.1,
+    by rw [hdl]; exact hrows.2.1, by rw [hmeta.1, hdl]; exact h3, ?_, ?_⟩
+  · intro k row hrow
+    have hk : k < c.utvs.length := by
+      have := (List.getElem?_eq_some_iff.mp hrow).1
+      omega
+    obtain ⟨t, task, a, b, cc, d, e, f⟩ := hrows.2.2 k c.utvs[k] (List.getElem?_eq_getElem hk)
+    obtain ⟨row', hr', hval⟩ := assemble_entry info c sort hnd task d k
+      (by rw [e]; exact List.getElem?_eq_getElem hk)
+    have : row' = row := by rw [hr'] at hrow; exact Option.some.inj hrow
+    subst this
+    exact ⟨t, task, a, b, cc, f, hval⟩
+  · intro t task ht hne hmem
+    obtain ⟨k, hk, hkt⟩ := List.getElem_of_mem hmem
+    have hk' : k < c.utvs.length := by rw [← hrows.2.1]; exact hk
+    obtain ⟨t', task', a, b, _, d, _, _⟩ := hrows.2.2 k c.utvs[k] (List.getElem?_eq_getElem hk')
+    rw [List.getElem?_eq_getElem hk, hkt] at a
+    have : t' = t := (Option.some.inj a).symm
+    subst this
+    rw [ht] at b
+    exact hne (Option.some.inj b ▸ d)
+
+/-- a file with an info task, a first arrangement over (b, a, c), the same stimuli in another
+    order, and the same list again -/
+def exJsonTasks : List (JTask Nat) :=
+  [{ taskType := some "info".toList, name := "i".toList, stimuli := [], rdm := [] },
+   { taskType := some sMultiarrange, name := "one".toList,
+     stimuli := ["b.png".toList, "a.png".toList, "c.png".toList], rdm := [1, 2, 3] },
+   { taskType := some sMultiarrange, name := "two".toList,
+     stimuli := ["a.png".toList, "b.png".toList, "c.png".toList], rdm := [4, 5, 6] },
+   { taskType := some sMultiarrange, name := "three".toList,
+     stimuli := ["b.png".toList, "a.png".toList, "c.png".toList], rdm := [7, 8, 9] }]
+
+def exJsonInfo : MInfo :=
+  { version := "1".toList, experiment := "e".toList, structure_ := "tree".toList,
+    filetype := "json".toList, taskScopeSingle := false, participantScopeSingle := true,
+    participant := some "able-fox".toList, taskIndex := none, taskName := none }
+
+/-- non-vacuity: the hypotheses hold for that file; the re-ordered task 2 is skipped, tasks 1
+    and 3 are loaded; the file's entry of task 1 for (a, b) is 1 (stored at the (b, a) position),
+    for (a, c) it is 3; task 2 would give 4 for (a, b) -/
+example : ∃ c, Src.compsJson exJsonInfo (some exJsonTasks) = .ok c ∧ (c.stimuli.map stem).Nodup ∧
+    c.tidx = some [1, 3] ∧ (assemble exJsonInfo c false).conds = ["b".toList, "a".toList, "c".toList] ∧
+    (assemble exJsonInfo c false).dissim = [[1, 2, 3], [7, 8, 9]] ∧
+    fileVal exJsonTasks[1] "a".toList "b".toList = 1 ∧
+    fileVal exJsonTasks[1] "a".toList "c".toList = 3 ∧
+    fileVal exJsonTasks[2] "a".toList "b".toList = 4 := by
+  refine ⟨_, rfl, by decide, by decide, by decide, by decide, by decide, by decide, by decide⟩
+
+end meadowsJson
 
 end Rsa.Props.C20
